@@ -33,7 +33,9 @@ class UseGenerator(SimpleCodemod, NameResolutionMixin):
             # NOTE: could also support things like `list` and `tuple`
             # but it's a less compelling use case
             case cst.Name("any" | "all" | "sum" | "min" | "max"):
-                if self.is_builtin_function(original_node):
+                if len(original_node.args) == 1 and self.is_builtin_function(
+                    original_node
+                ):
                     match original_node.args[0].value:
                         case cst.ListComp(elt=elt, for_in=for_in):
                             self.add_change(original_node, self.change_description)
